@@ -73,7 +73,13 @@ bool Edge::GetBindingBool(const char* key) const {
   __CPROVER_assert(0, "model capacity: shadow Edge::GetBindingBool: key not modelled"); __CPROVER_assume(0);
   return false;
 }
-struct Rule { std::string name_; std::string& name() const { return const_cast<Rule*>(this)->name_; } };
+struct Rule {
+  std::string name_; bool vf_generator;      /* vf_generator: the RULE itself binds generator (an edge may also get it from its own or a file-level binding) */
+  Rule() : vf_generator(false) {}
+  std::string& name() const { return const_cast<Rule*>(this)->name_; }
+  /* contract stub of Rule::GetBinding(key): non-null exactly if the rule itself binds the key */
+  const void* GetBinding(const char* key) const { if (vf_streq(key, "generator")) return vf_generator ? (const void*)this : (const void*)0; __CPROVER_assert(0, "model capacity: shadow Rule::GetBinding: key not modelled"); __CPROVER_assume(0); return 0; }
+};
 static Rule& vf_rule_of(const Edge* e) { return *const_cast<Rule*>(e->rule_); }
 #define rule() vf_rule_ref()
 /* ---- ghost log of file-system operations; paths are interned by the harness ---- */
@@ -173,7 +179,7 @@ def unit_text(mutant=None):
                            m.group(1), m.group(2), m.group(3), m.group(2), m.group(3), m.group(2), m.group(1), m.group(2), m.group(2)), body)
     body, n27 = re.subn(r'\bif\s*\(\s*(\w+)\s*\*\s*(\w+)\s*=\s*([^;{}]+?)\)\s*\{', r'\1* \2 = \3; if (\2) {', body)
     # the real Edge::rule() returns `const Rule&` (rejected by the front end for member access chains): spelled through the shadow accessor
-    body, nr = re.subn(r'\(\*e\)->rule\(\)\.name\(\)', 'vf_rule_of(*e).name()', body)
+    body, nr = re.subn(r'\(\*(\w+)\)->rule\(\)', r'vf_rule_of(*\1)', body)
     body, n20 = re.subn(r'\bBuildLog::Entries::const_iterator\b', 'std::map<StringPiece, int>::const_iterator', body)      # L20
     if re.search(r'->rule\(\)', body):
         raise slicer.SliceError("an uncovered ->rule() use remains")
